@@ -202,6 +202,10 @@ class WrapTranslator:
             if isinstance(e, ast.Call) and _u(e.func) == "TypeCheckError" and len(e.args) == 1 and isinstance(e.args[0], ast.Name) and not e.keywords:
                 cause_ok = st.cause is None or _u(st.cause) == "None" or (self.exc_names and _u(st.cause) in self.exc_names) or \
                     (isinstance(st.cause, ast.IfExp) and _u(st.cause.test) == "config.jaxtyping_remove_typechecker_stack")
+                if not cause_ok and isinstance(st.cause, ast.Name):
+                    # `cause = None` / `cause = e` in the branches of a preceding `if`: a local that only ever holds None or a caught exception
+                    vals = [_u(a.value) for p_ in prev for a in ast.walk(p_) if isinstance(a, ast.Assign) and any(isinstance(t, ast.Name) and t.id == st.cause.id for t in a.targets)]
+                    cause_ok = bool(vals) and all(v == "None" or v in (self.exc_names or []) for v in vals)
                 text, current = self._msg_facts(prev, e.args[0].id)
                 if "checking the parameters" in text and "checking the return value" not in text:
                     # the blamed parameter is the text of the caught TypeCheckError
@@ -388,10 +392,12 @@ def translate_problem_arg(tree, notes):
         notes.append("_get_problem_arg not found / unexpected parameters")
         return ".unknown", ".unknown"
     body = WrapTranslator._strip(fn.body)
-    if len(body) != 1 or not isinstance(body[0], ast.For):
+    # one loop; what runs when it ends is its `else:` block or — the loop has no `break` (checked below) — what follows it
+    if not body or not isinstance(body[0], ast.For) or (len(body) > 1 and body[0].orelse):
         notes.append("_get_problem_arg is not one for / else loop")
         return ".unknown", ".unknown"
     loop = body[0]
+    after = body[1:]
     it = _u(loop.iter)
     if it in ("param_signature.parameters.keys()", "param_signature.parameters") and isinstance(loop.target, ast.Name):
         var = loop.target.id
@@ -406,7 +412,7 @@ def translate_problem_arg(tree, notes):
     t = BlameTranslator(tree, var)
     b = t.seq(loop.body)
     t2 = BlameTranslator(tree, var)
-    e = t2.seq(loop.orelse) if loop.orelse else ".skip"
+    e = t2.seq(loop.orelse) if loop.orelse else (t2.seq(after) if after else ".skip")
     notes.extend(t.notes + t2.notes)
     return b, e
 
